@@ -36,7 +36,7 @@ META = dict(
     ),
 )
 META["explanation"] += (
-    " Added after the independent seeding rounds 2-3: " 'R7 the per-step item budget bounds the forced-byte loop: advance_parser refuses in every mode once all_items > max_all_items, and force_bytes runs under with_items_limit. R8 speculation never pops lexer states below its base (handle_hidden_bytes is a known finding).'
+    " Added after the independent seeding rounds 2-3: " 'R7 the per-step item budget bounds the forced-byte loop: advance_parser refuses in every mode once all_items > max_all_items, and force_bytes runs under with_items_limit. R8 speculation never pops lexer states below its base (handle_hidden_bytes is a known finding). R9 additions on budget values (max_tokens_total, max_all_items, ParserLimits fields and parameters filled from them) are saturating/checked.'
 )
 
 # edges that consume one level of *already bounded* input nesting (serde_json parses at most 128 levels;
